@@ -607,7 +607,7 @@ fn dup_generation(rng: &mut Rng, img: &mut Vec<u8>, version: u32, now: u64) -> b
     img[o..o + BS].copy_from_slice(&src);
     let kl = u16::from_le_bytes([src[4], src[5]]) as usize;
     let ts = u64::from_le_bytes(src[14 + kl..22 + kl].try_into().unwrap());
-    let nts = if rng.chance(2, 3) { ts.saturating_add(rng.range(1, 9)) } else { ts.saturating_sub(rng.range(1, 9)) };
+    let nts = if rng.chance(1, 8) { ts } else if rng.chance(2, 3) { ts.saturating_add(rng.range(1, 9)) } else { ts.saturating_sub(rng.range(1, 9)) };
     img[o + 14 + kl..o + 22 + kl].copy_from_slice(&nts.to_le_bytes());
     if version >= 2 {
         let e = match rng.below(4) { 0 => 0u64, 1 | 2 => now.saturating_sub(rng.range(1, 3_000_000_000)), _ => now.saturating_add(1_000_000_000_000) };
@@ -757,6 +757,11 @@ impl feoxdb::verif::io::Observer for Tracer {
 
 /// what a completed recovery of `path` exposes: key -> (timestamp, expiry, value digest)
 fn recovered_contents(path: &str, amb: bool, ttl: bool, now: u64, tracer: Option<std::sync::Arc<Tracer>>) -> Result<std::collections::BTreeMap<Vec<u8>, (u64, u64, String)>, String> {
+    recovered_contents_at(path, amb, ttl, now, tracer).map(|m| m.into_iter().map(|(k, v)| (k, (v.0, v.1, v.2))).collect())
+}
+
+/// as above, with the sector of each record
+fn recovered_contents_at(path: &str, amb: bool, ttl: bool, now: u64, tracer: Option<std::sync::Arc<Tracer>>) -> Result<std::collections::BTreeMap<Vec<u8>, (u64, u64, String, u64)>, String> {
     feoxdb::verif::clock::pin(now);
     if let Some(t) = &tracer { feoxdb::verif::io::set_observer(Some(t.clone())); }
     let p = path.to_string();
@@ -784,15 +789,163 @@ fn recovered_contents(path: &str, amb: bool, ttl: bool, now: u64, tracer: Option
                     Ok(Err(e)) => format!("E{}", err_name(&e)),
                     Err(_) => "PANIC".to_string(),
                 };
-                m.insert(r.key.clone(), (r.timestamp, r.ttl_expiry, vd));
+                m.insert(r.key.clone(), (r.timestamp, r.ttl_expiry, vd, r.sector));
             }
-            if m.len() != store.len() { m.insert(b"#len".to_vec(), (store.len() as u64, 0, String::new())); }
+            if m.len() != store.len() { m.insert(b"#len".to_vec(), (store.len() as u64, 0, String::new(), 0)); }
             drop(store);
             Ok(m)
         }
     };
     feoxdb::verif::clock::unpin();
     res
+}
+
+/// the record heads of a cleanly closed v2/v3 device (plus forged copies), in scan order:
+/// (key, timestamp, expiry, sector)
+fn image_generations(img: &[u8]) -> Vec<(Vec<u8>, u64, u64, u64)> {
+    let blocks = img.len() / BS;
+    let mut out = vec![];
+    let mut b = 16;
+    while b < blocks {
+        let o = b * BS;
+        if img[o] == 0xCD && img[o + 1] == 0xAB {
+            let kl = u16::from_le_bytes([img[o + 4], img[o + 5]]) as usize;
+            if kl > 0 && 30 + kl <= BS {
+                let vl = u64::from_le_bytes(img[o + 6 + kl..o + 14 + kl].try_into().unwrap()) as usize;
+                let ts = u64::from_le_bytes(img[o + 14 + kl..o + 22 + kl].try_into().unwrap());
+                let ex = u64::from_le_bytes(img[o + 22 + kl..o + 30 + kl].try_into().unwrap());
+                let n = (30 + kl + vl).div_ceil(BS).max(1);
+                if b + n <= blocks {
+                    out.push((img[o + 6..o + 6 + kl].to_vec(), ts, ex, b as u64));
+                    b += n;
+                    continue;
+                }
+            }
+        }
+        b += 1;
+    }
+    out
+}
+
+/// recover `img` (ttl on, clock at `later`), then restart recovery from every cut of its own write trace
+fn reccut_image(s: &mut Sink, rng: &mut Rng, img: &[u8], amb: bool, later: u64, tag: &str, sparse: bool, oracle: &mut Vec<String>) {
+    let mp = format!("{}/{}.feox", s.dir, tag);
+    std::fs::write(&mp, img).unwrap();
+    let tracer = std::sync::Arc::new(Tracer { log: std::sync::Mutex::new(vec![]) });
+    let r0at = match recovered_contents_at(&mp, amb, true, later, Some(tracer.clone())) {
+        Ok(r) => r,
+        Err(_) => { *s.hist.entry("reccut-first-recovery-refused".into()).or_insert(0) += 1; let _ = std::fs::remove_file(&mp); return; }
+    };
+    // generation-level model (Feox.Proto.Gens.exposed) on the same device
+    {
+        let gens = image_generations(img);
+        let mut keys: Vec<Vec<u8>> = gens.iter().map(|g| g.0.clone()).collect();
+        keys.sort();
+        keys.dedup();
+        let idx = |k: &Vec<u8>| keys.binary_search(k).ok();
+        let line = if gens.is_empty() { "-".to_string() } else { gens.iter().map(|g| format!("{}:{}:{}:{}", idx(&g.0).unwrap(), g.1, g.2, g.3)).collect::<Vec<_>>().join(",") };
+        let mut known = true;
+        let shown: Vec<String> = r0at.iter().filter(|(k, _)| k.as_slice() != b"#len").map(|(k, v)| match idx(k) { Some(i) => format!("{}:{}:{}:{}", i, v.0, v.1, v.3), None => { known = false; String::new() } }).collect();
+        let multi = keys.len() < gens.len();
+        let res = if known { format!("ok {}", shown.join(",")).trim_end().to_string() } else { "recovered a key the image walk did not see".to_string() };
+        s.emit(if multi { "gens-multi-generation" } else { "gens" }, format!("gens {} {}", later, line), res);
+    }
+    let r0: std::collections::BTreeMap<Vec<u8>, (u64, u64, String)> = r0at.into_iter().map(|(k, v)| (k, (v.0, v.1, v.2))).collect();
+    let trace = tracer.log.lock().unwrap().clone();
+    let nwrites = trace.iter().filter(|e| e.0).count();
+    *s.hist.entry(if sparse { format!("reccut-big-image-{}-journal-transactions", trace.iter().filter(|e| e.0 && e.1 < 16).count() / 2) } else { format!("reccut-image-{}-repair-writes", nwrites.min(9)) }).or_insert(0) += 1;
+    // sparse (long traces): every journal / metadata write is a cut, of the marker writes a sample
+    let cuts: Vec<usize> = trace.iter().enumerate().filter(|(_, e)| e.0 && (!sparse || e.1 < 16 || rng.chance(1, 100))).map(|(i, _)| i + 1).collect();
+    for &cut in &cuts {
+        for variant in 0..2 {
+            // 0: everything issued up to the cut is on the device; 1: fsynced writes + a random subset of the rest
+            let mut img2 = img.to_vec();
+            let mut pending: Vec<&(bool, u64, Vec<u8>)> = vec![];
+            let apply = |img2: &mut Vec<u8>, e: &(bool, u64, Vec<u8>)| {
+                let off = e.1 as usize * BS;
+                if off + e.2.len() <= img2.len() { img2[off..off + e.2.len()].copy_from_slice(&e.2); }
+            };
+            for e in &trace[..cut] {
+                if e.0 { if variant == 0 { apply(&mut img2, e); } else { pending.push(e); } }
+                else { for q in pending.drain(..) { apply(&mut img2, q); } }
+            }
+            if variant == 1 {
+                if pending.is_empty() { continue; }
+                for q in pending.drain(..) { if rng.chance(1, 2) { apply(&mut img2, q); } }
+            }
+            let cp = format!("{}/{}_c{}_{}.feox", s.dir, tag, cut, variant);
+            std::fs::write(&cp, &img2).unwrap();
+            *s.hist.entry("reccut-restart".into()).or_insert(0) += 1;
+            let r1 = recovered_contents(&cp, amb, true, later, None);
+            let same = matches!(&r1, Ok(r) if *r == r0);
+            if !same {
+                let keep0 = format!("{}/{}.image", s.dir, tag);
+                let keep1 = format!("{}/{}_c{}_{}.image", s.dir, tag, cut, variant);
+                std::fs::write(&keep0, img).unwrap();
+                std::fs::write(&keep1, &img2).unwrap();
+                let show = |r: &std::collections::BTreeMap<Vec<u8>, (u64, u64, String)>| r.iter().take(6).map(|(k, v)| format!("{}@{}/{}={}", hex(&k[..k.len().min(12)]), v.0, v.1, v.2)).collect::<Vec<_>>().join(",");
+                let diff = match &r1 {
+                    Err(e) => format!("the restarted recovery fails: {}", e),
+                    Ok(r) => {
+                        let k = r.keys().chain(r0.keys()).find(|k| r.get(*k) != r0.get(*k)).unwrap();
+                        format!("key {}: uninterrupted recovery {:?}, restarted recovery {:?}", hex(k), r0.get(k), r.get(k))
+                    }
+                };
+                oracle.push(format!("reccut{}: recovery (ttl on, now={}, amb={}) of {} interrupted after {} of its {} device events ({}) and restarted on {} exposes different contents — {} [first: {}{}]",
+                    if sparse { "-big" } else { "" }, later, amb as u8, keep0, cut, trace.len(), if variant == 0 { "all issued writes landed" } else { "un-synced writes partly lost" }, keep1, diff, show(&r0), if r0.len() > 6 { ",..." } else { "" }));
+                if sparse { let _ = std::fs::remove_file(&cp); let _ = std::fs::remove_file(&mp); return; }
+            }
+            let _ = std::fs::remove_file(&cp);
+        }
+    }
+    let _ = std::fs::remove_file(&mp);
+}
+
+/// a device on which recovery has more than ALLOCATION_JOURNAL_MAX_ENTRIES (1024) separate extents to
+/// retire - `pairs` expired keys interleaved with live ones - and one of the expired winners (lowest
+/// sector) has an older, unexpired generation in the last block
+fn sec_reccut_big(s: &mut Sink, rng: &mut Rng, pairs: u64, oracle: &mut Vec<String>) {
+    let now = 1_700_000_000_000_000_000u64 + rng.below(1_000_000_000);
+    let blocks = 16 + 2 * pairs + 64;
+    let path = format!("{}/rcbig.feox", s.dir);
+    new_device(&path, blocks, 3);
+    feoxdb::verif::clock::pin(now);
+    let Ok(store) = FeoxStore::builder().device_path(path.clone()).file_size(blocks * BS as u64).hash_bits(10).enable_ttl(true).build() else { return };
+    for i in 0..pairs {
+        // one flush per record: the two kinds alternate on the device, so nothing coalesces
+        let _ = store.insert(format!("live-{:05}", i).as_bytes(), &rng.bytes(40));
+        let _ = store.flush();
+        let _ = store.insert_with_ttl(format!("gone-{:05}", i).as_bytes(), &rng.bytes(40), 1);
+        let _ = store.flush();
+    }
+    let _ = store.flush();
+    drop(store);
+    feoxdb::verif::clock::unpin();
+    let mut img = std::fs::read(&path).unwrap();
+    let _ = std::fs::remove_file(&path);
+    let nblocks = img.len() / BS;
+    // lowest expiring record
+    let head = (16..nblocks).find(|b| {
+        let o = b * BS;
+        img[o] == 0xCD && img[o + 1] == 0xAB && {
+            let kl = u16::from_le_bytes([img[o + 4], img[o + 5]]) as usize;
+            kl == 10 && &img[o + 6..o + 11] == b"gone-"
+        }
+    });
+    let free = (16..nblocks).rev().find(|b| all_zero(&img[b * BS..b * BS + BS]));
+    let (Some(h), Some(f)) = (head, free) else { *s.hist.entry("reccut-big-skipped".into()).or_insert(0) += 1; return };
+    if f < h { *s.hist.entry("reccut-big-skipped".into()).or_insert(0) += 1; return; }
+    let src = img[h * BS..h * BS + BS].to_vec();
+    let o = f * BS;
+    img[o..o + BS].copy_from_slice(&src);
+    let kl = 10usize;
+    let ts = u64::from_le_bytes(src[14 + kl..22 + kl].try_into().unwrap());
+    img[o + 14 + kl..o + 22 + kl].copy_from_slice(&(ts - 5).to_le_bytes());
+    img[o + 22 + kl..o + 30 + kl].copy_from_slice(&0u64.to_le_bytes());
+    img[o + 30 + kl] ^= 0x5A;
+    fx::stamp_seq_token(&mut img[o..o + BS], f as u64, 3);
+    let later = now + 10_000_000_000;
+    reccut_image(s, rng, &img, false, later, "rcbig", true, oracle);
 }
 
 /// C04 on devices that hold several generations of a key with expiries on both sides of the
@@ -817,59 +970,7 @@ fn sec_reccut(s: &mut Sink, rng: &mut Rng, workloads: usize, mutations: usize, o
             for _ in 0..rng.range(1, 3) { if dup_generation(rng, &mut img, version, later) { gens += 1; } }
             if gens == 0 { *s.hist.entry("reccut-skipped-no-generation".into()).or_insert(0) += 1; continue; }
             let amb = rng.chance(1, 3);
-            let mp = format!("{}/rc{}_m{}.feox", s.dir, w, m);
-            std::fs::write(&mp, &img).unwrap();
-            let tracer = std::sync::Arc::new(Tracer { log: std::sync::Mutex::new(vec![]) });
-            let r0 = match recovered_contents(&mp, amb, true, later, Some(tracer.clone())) {
-                Ok(r) => r,
-                Err(_) => { *s.hist.entry("reccut-first-recovery-refused".into()).or_insert(0) += 1; let _ = std::fs::remove_file(&mp); continue; }
-            };
-            let trace = tracer.log.lock().unwrap().clone();
-            let nwrites = trace.iter().filter(|e| e.0).count();
-            *s.hist.entry(format!("reccut-image-{}-repair-writes", nwrites.min(9))).or_insert(0) += 1;
-            let cuts: Vec<usize> = trace.iter().enumerate().filter(|(_, e)| e.0).map(|(i, _)| i + 1).collect();
-            for &cut in &cuts {
-                for variant in 0..2 {
-                    // 0: everything issued up to the cut is on the device; 1: fsynced writes + a random subset of the rest
-                    let mut img2 = img.clone();
-                    let mut pending: Vec<&(bool, u64, Vec<u8>)> = vec![];
-                    let apply = |img2: &mut Vec<u8>, e: &(bool, u64, Vec<u8>)| {
-                        let off = e.1 as usize * BS;
-                        if off + e.2.len() <= img2.len() { img2[off..off + e.2.len()].copy_from_slice(&e.2); }
-                    };
-                    for e in &trace[..cut] {
-                        if e.0 { if variant == 0 { apply(&mut img2, e); } else { pending.push(e); } }
-                        else { for q in pending.drain(..) { apply(&mut img2, q); } }
-                    }
-                    if variant == 1 {
-                        if pending.is_empty() { continue; }
-                        for q in pending.drain(..) { if rng.chance(1, 2) { apply(&mut img2, q); } }
-                    }
-                    let cp = format!("{}/rc{}_m{}_c{}_{}.feox", s.dir, w, m, cut, variant);
-                    std::fs::write(&cp, &img2).unwrap();
-                    *s.hist.entry("reccut-restart".into()).or_insert(0) += 1;
-                    let r1 = recovered_contents(&cp, amb, true, later, None);
-                    let same = matches!(&r1, Ok(r) if *r == r0);
-                    if !same {
-                        let keep0 = format!("{}/rc{}_m{}.image", s.dir, w, m);
-                        let keep1 = format!("{}/rc{}_m{}_c{}_{}.image", s.dir, w, m, cut, variant);
-                        std::fs::write(&keep0, &img).unwrap();
-                        std::fs::write(&keep1, &img2).unwrap();
-                        let show = |r: &std::collections::BTreeMap<Vec<u8>, (u64, u64, String)>| r.iter().map(|(k, v)| format!("{}@{}/{}={}", hex(k), v.0, v.1, v.2)).collect::<Vec<_>>().join(",");
-                        let diff = match &r1 {
-                            Err(e) => format!("the restarted recovery fails: {}", e),
-                            Ok(r) => {
-                                let k = r.keys().chain(r0.keys()).find(|k| r.get(*k) != r0.get(*k)).unwrap();
-                                format!("key {}: uninterrupted recovery {:?}, restarted recovery {:?}", hex(k), r0.get(k), r.get(k))
-                            }
-                        };
-                        oracle.push(format!("reccut: recovery (ttl on, now={}, amb={}) of {} interrupted after {} of its {} device events ({}) and restarted on {} exposes different contents — {} [first: {}]",
-                            later, amb as u8, keep0, cut, trace.len(), if variant == 0 { "all issued writes landed" } else { "un-synced writes partly lost" }, keep1, diff, show(&r0)));
-                    }
-                    let _ = std::fs::remove_file(&cp);
-                }
-            }
-            let _ = std::fs::remove_file(&mp);
+            reccut_image(s, rng, &img, amb, later, &format!("rc{}_m{}", w, m), false, oracle);
         }
         let _ = std::fs::remove_file(&path);
     }
@@ -1267,6 +1368,8 @@ fn main() {
         let w = kv(&args.extra, "workloads", 30 * k);
         let m = kv(&args.extra, "mutations", 8);
         sec_reccut(&mut s, &mut rng, w, m, &mut oracle);
+        let big = kv(&args.extra, "big", 0);
+        if big > 0 { sec_reccut_big(&mut s, &mut rng, big as u64, &mut oracle); }
     }
     if sections.iter().any(|x| x == "recover") {
         let w = kv(&args.extra, "workloads", 30 * k);
